@@ -134,7 +134,7 @@ CHECKS = {
         "lemmas, mutual induction over the AST and a case analysis of every function template). `noninterference` (Props/C07Shape.lean when present): filters "
         "with the same skeleton emit pieces of identical shape. The model's text is compared character by character with the three real visitors on every "
         "syntactic position of a string literal x 26 hostile contents x dialect x alias; the REAL text is then tokenised by the Lean tokeniser and its token "
-        "shape compared with the same filter holding a benign content; field spellings likewise.",
+        "shape compared with the same filter holding a benign content; field spellings likewise. Props/Accepted.lean `injection_free_accepted`: the same for every ASCII text the parser accepts (litOk discharged by the lexer's image).",
    note="Trusted: Lean kernel, standard axioms, Spec/SqlLex.lean (the independent tokeniser), harness. Hypothesis litOk (number / date / GUID texts, names without '\"') is PROVED for every "
         "accepted ASCII filter text (C06.accepted_litOk, Props/C06Image.lean); Tie.SqlTemplates ties every function template of the model to the f-strings of the source class. One known finding (the ESCAPE clause appears only for literals containing a wildcard) has Lean "
         "witnesses. fix: 329d7a6 (quotes in LIKE patterns), fae5465, a628179. The table alias is caller-supplied and trusted.",
@@ -146,7 +146,7 @@ CHECKS = {
         "column piece qualified - every dialect, every filter, including raising ones), parse_mirror (Props/C09Parse.lean when present: the emitted tokens parse to "
         "Spec.mirror for every sqlSafe filter). Executed on every run: exact text vs the model for every operator x operator nesting in both operand positions, string "
         "positions, field spellings and seeded typed filters x 3 dialects x alias none/'t'/'u' with visitors of different aliases interleaved; the REAL text is read by the "
-        "Lean SQL lexer+parser and compared with Spec.mirror.",
+        "Lean SQL lexer+parser and compared with Spec.mirror. Props/Accepted.lean `mirror_accepted`: parse_mirror for every accepted ASCII text inside the SQL-expressible fragment.",
    note="Trusted: Lean kernel, standard axioms, Spec/SqlLex+SqlParse+SqlMirror (independent reader and expected trees), harness. Side condition Spec.sqlSafe holds for every filter of the typed "
         "grammar (checked each run). Known finding: the standard dialect's floor/ceiling CASE templates are not SQL (pinned by the suite; Lean witness kf_std_floor). "
         "fix: a701528 c4949ac 3f9b06a.",
@@ -158,7 +158,7 @@ CHECKS = {
         "(not_handler_of_ns). Completeness of a successful SQL translation is C09's parse_mirror. Executed: the node-kind x operand-position matrix and every built-in x "
         "argument kind x position, for the three SQL dialects and the roundtrip printer against the model (outcome class, payload, text), and for Django / SQLAlchemy ORM / "
         "Core on the strictly well-typed subset plus relational filters with unknown fields at every depth and same-named relationships on different models. "
-        "Both hypotheses hold for every accepted filter: callsOk by C10.parse_image (Props/C10Image.lean), durOk by C06.accepted_litOk (Props/C06Image.lean, ASCII texts). "
+        "Both hypotheses hold for every accepted filter: callsOk by C10.parse_image + callsOk_of_printable, durOk by C06.accepted_litOk (ASCII texts): Props/C12Sql.lean `sql_never_leaks_accepted`. "
         "ORM backends (Props/C12Orm.lean): `dj_never_leaks_welltyped`, `sa_never_leaks_welltyped` - for EVERY tree in the parser's image (printable) that is well-typed in Spec/TypesStrict under any "
         "field typing (every built-in, every overload, every literal kind, null wherever a primitive is expected) the models of the Django visitor and of the SQLAlchemy ORM / Core visitors return a "
         "translation, a library exception or the documented NotImplementedError, never a Python-level error ('unmodelled': geography literals and geo functions, covered by execution). "
